@@ -100,6 +100,7 @@ typedef struct {
   uint8_t* cap_out;
   size_t cap_in_bytes, cap_out_bytes;
   int fpenv_changed;  // MXCSR or the x87 control word differ after the call (hidden state left in the CPU)
+  int rerun_differs;  // MON_RERUN: a second call on the very same buffers (outputs already holding the result) gave other bits
   uint64_t u[8];  // the plan's scalar parameters (e.g. divisor exponent, ell)
   double d[2];
 } opres_t;
@@ -107,6 +108,8 @@ typedef struct {
 #define MON_CANARY 1u
 #define MON_SNAPSHOT 2u
 #define MON_VALGRIND 4u  // mark OUT/SCRATCH undefined before, check OUT defined after (memcheck client requests)
+#define MON_RERUN 16u    // calls without INOUT / overwritten-source buffers are made a second time on the same buffers: the outputs (now
+                         // pre-filled with the correct result, scratch pre-filled with what the first call left) must not change
 #define MON_CAPTURE 8u   // keep copies of the inputs (before the call) and of the outputs (after); caller frees res->cap_*
 // Executes catalogue entry `o` once. All parameters (shape, strides, operand values) derive from `seed` only,
 // never from `prefill` (pattern written to OUT and SCRATCH buffers before the call) or `mis` (byte
